@@ -25,7 +25,7 @@ PROPS = {
     "C08": dict(module="MoqModel.Props.C08", stages=["corr", "rt", "cli"], oracles=["C08"], trust=[]),
     "C09": dict(module="MoqModel.Props.C09", stages=["corr"], oracles=["C09"],
                 trust=["Go instantiation is substitution"]),
-    "C10": dict(module="MoqModel.Props.C10", stages=["corr"], oracles=["C10"], trust=[]),
+    "C10": dict(module="MoqModel.Props.C10", stages=["corr", "cli"], oracles=["C10"], trust=[]),
     "C11": dict(module="MoqModel.Props.C11", stages=["corr"], oracles=["C11"], trust=[]),
     "C12": dict(module="MoqModel.Props.C12", stages=["corr"], oracles=["C12"], trust=[]),
     "C13": dict(module="MoqModel.Props.C13", stages=["corr"], oracles=["C13"], trust=[]),
